@@ -492,7 +492,9 @@ int main()
               << " prevMax=" << MAX_PREV_OPCODES << " ringSize=" << ScriptCountManager::prevopSize
               << " szStateScript=" << sizeof(StateScript) << " szCatchBlock=" << sizeof(CatchBlock)
               << " szEntry=" << sizeof(con::Entry<const_str, script_label_t>) << " szPtr=" << sizeof(void*)
-              << " szSourcePos=" << sizeof(sourcePosMap_t) << " opMax=" << int(OP_MAX) << " opPrevious=" << int(OP_PREVIOUS)
+              << " szSourcePos=" << sizeof(sourcePosMap_t)
+              << " parmNumMax=" << unsigned(std::numeric_limits<op_parmNum_t>::max())
+              << " arrayParmNumMax=" << unsigned(std::numeric_limits<op_arrayParmNum_t>::max()) << " opMax=" << int(OP_MAX) << " opPrevious=" << int(OP_PREVIOUS)
               << " ops=";
             // OpcodeInfo[] is file-local: read through its accessors, one entry per opcode below OP_PREVIOUS
             for (int i = 0; i < int(OP_PREVIOUS); ++i) {
